@@ -11,7 +11,7 @@ import sys
 VERIF = os.path.dirname(os.path.dirname(os.path.abspath(__file__)))
 SD = os.path.join(VERIF, "seeded")
 # outcome of the very first run of the checks against each seed, before any strengthening
-FIRST_MISSED = {"C03-4", "C03-5", "C02-5", "C02-6", "C10-5", "C02-3", "C08-4", "C10-4", "C04-3", "C09-3", "C11-4", "C12-4", "C02-2", "C03-1", "C05-1", "C06-1", "C06-2", "C08-1", "C08-2", "C10-1", "C11-2", "C15-1", "C18-1", "C19-1", "C19-2"}
+FIRST_MISSED = {"C15-4", "C16-3", "C16-4", "C14-3", "C14-4", "C03-4", "C03-5", "C02-5", "C02-6", "C10-5", "C02-3", "C08-4", "C10-4", "C04-3", "C09-3", "C11-4", "C12-4", "C02-2", "C03-1", "C05-1", "C06-1", "C06-2", "C08-1", "C08-2", "C10-1", "C11-2", "C15-1", "C18-1", "C19-1", "C19-2"}
 STRENGTHENED = {
     "C02-2": "new rule C02-e.upgrade-hands-over-write-buf (+ write-buf-effect)",
     "C03-1": "new rule C03-c.finished-kept-while-draining",
@@ -34,6 +34,12 @@ STRENGTHENED = {
     "C04-4": "caught by fail-closed anchors only (the Ready edge of poll_linger and its self-wake disappeared)",
     "C09-3": "new rule C09-f.configure-keeps-default",
     "C11-4": "C11-e.head-field strengthened from 'some write exists' to must-pass-through on every path to the hand-off",
+    "C15-4": "new rule C15-f.scan-resumes-at-next-byte",
+    "C16-3": "new rules C16-b.checks-on-decoded and C16-b.returned-is-built",
+    "C16-4": "new rule C16-c.precondition-before-not-modified",
+    "C14-3": "new rule C14-e.upgrade-token-case-insensitive",
+    "C14-4": "new rule C14-c.writer-length-is-payload-length",
+    "C06-4": "was caught by C03 only (sibling agreement of the two send-body arms); C06 now has C06.finished-marked-at-end-of-body",
     "C03-4": "new rule C03-c.close-decision-before-state-drop",
     "C03-5": "new rule C03-c.body-decoder-installed",
     "C02-5": "new rule C02-e/C04-c.error-exit-after-responses",
